@@ -227,17 +227,30 @@ def run(chk: core.Check, tier: str, seed: int) -> None:
     for lim in limits:
         for mode in ("det", "rnd"):
             env = probes.make_env(jp, [], [], nondeterministic=(mode == "rnd"), max_depth=lim)
-            for depth in (lim - 1, lim, lim + 1):
+            # "the bound is the one configured on the environment": an environment whose limit is changed (on the
+            # instance) after the query was compiled applies the limit it has when the query is applied
+            env_re = probes.make_env(jp, [], [], nondeterministic=(mode == "rnd"), max_depth=lim + rng.choice([-1, 1, 2, 50]))
+            compiled_early = {}
+            # a prefixed descendant segment (after child segments, inside a filter) is applied one or two levels
+            # down: the documents go two levels deeper for those, so that the node it is applied to is around the limit
+            for depth in (lim - 1, lim, lim + 1, lim + 2, lim + 3):
                 if depth < 1:
                     continue
                 for shape in (range(6) if tier != "quick" else rng.sample(range(6), 2)):
                     for bottom in (0, 1, 2):
                         doc, spine, leaf = chain(depth, shape, bottom)
                         assert nesting(doc) == depth, (depth, shape, bottom, nesting(doc))
-                        q = rng.choice(QUERIES + PREFIXED)
+                        q = rng.choice(QUERIES + PREFIXED) if depth <= lim + 1 else rng.choice(PREFIXED)
                         rec = {"op": "depth", "q": core.enc_text(q), "spine": spine, "leaf": leaf, "limit": lim, "mode": mode,
                                "nesting": depth}
-                        c = env.compile(q)
+                        if (shape + bottom + depth) % 3 == 0:
+                            if q not in compiled_early:
+                                env_re.max_recursion_depth = lim + 3            # whatever it was when compiling
+                                compiled_early[q] = env_re.compile(q)
+                            env_re.max_recursion_depth = lim
+                            c = compiled_early[q]
+                        else:
+                            c = env.compile(q)
                         try:
                             timed_out, nodes = impl.with_timeout(20.0, c.find, doc)
                             rec.update({"out": "timeout" if timed_out else "ok", "cls": "",
